@@ -41,9 +41,14 @@ def dstep (cfg : Cfg) (s : St) (l : Label) : Option St :=
     else step cfg s l
   | _ => step cfg s l
 
+/-- `libCtxEnd` ("the library's context ends by the library's own doing") is enabled only for code whose
+context origin is not the plain cancel-only one (`Stream.ctxPlain = false`); nothing in the harness triggers
+it — it happens with the passage of (virtual) time — so it is an internal step here: on such a tree the
+model follows the code. -/
 def sys (cfg : Cfg) (slow : Bool := false) : Sys St Label :=
   { step := dstep cfg,
-    internal := fun s => internalLabels s ++ (if slow then [srcCtxLabel s] else [.srcCloseRet, srcCtxLabel s]) }
+    internal := fun s => internalLabels s ++ [.libCtxEnd]
+      ++ (if slow then [srcCtxLabel s] else [.srcCloseRet, srcCtxLabel s]) }
 
 def showErr : Err → String
   | .f k => s!"F{k}"
